@@ -153,3 +153,464 @@ Proof.
     destruct (Z.eq_dec m (cs / 2)) as [E|E]; [lia|].
     apply (IH (cs / 2) len m Hh Hm); [lia | exact Hr].
 Qed.
+
+(* ------------------------------------------------------------------ *)
+(* a generic invariant principle for the driver loop                  *)
+(* ------------------------------------------------------------------ *)
+
+Definition on_ls {S} (K : S -> iter -> world -> Prop) (s : lstate S) : Prop :=
+  match s with LS st it w => K st it w end.
+
+Lemma lsteps_on_ls : forall S (strat : strategy S) verdict (K : S -> iter -> world -> Prop),
+  (forall a b, lstep strat verdict a b -> on_ls K a -> on_ls K b) ->
+  forall a b, lsteps strat verdict a b -> on_ls K a -> on_ls K b.
+Proof.
+  intros S strat verdict K Hstep a b Hs. induction Hs as [s|a b c Hab Hbc IH]; intros Ha.
+  - exact Ha.
+  - apply IH. eapply Hstep; eassumption.
+Qed.
+
+(* invariants that relate only the strategy state and the current best *)
+Definition step_inv {S} (strat : strategy S) (J : S -> tcase -> Prop) : Prop :=
+  forall st best, J st best ->
+    match s_next strat st best with
+    | Propose t k => J (k Skipped) best /\ J (k (Tested false)) best /\ J (k (Tested true)) t
+    | RawWrite _ st' => J st' best
+    | Done => True
+    | Fail _ => True
+    end.
+
+Lemma lsteps_step_inv : forall S (strat : strategy S) verdict (J : S -> tcase -> Prop),
+  step_inv strat J ->
+  forall a b, lsteps strat verdict a b ->
+    on_ls (fun st it _ => J st (it_best it)) a -> on_ls (fun st it _ => J st (it_best it)) b.
+Proof.
+  intros S strat verdict J HJ. apply lsteps_on_ls.
+  intros a b Hstep. destruct Hstep as
+    [st it w b0 st' Hn | st it w t k Hn Hm | st it w t k w' Hn Hm Hi | st it w t k w' Hn Hm Hi];
+    cbn [on_ls it_best]; intros Ha; pose proof (HJ _ _ Ha) as Hs; rewrite Hn in Hs.
+  - exact Hs.
+  - apply Hs.
+  - apply Hs.
+  - apply Hs.
+Qed.
+
+Lemma loop_start_state : forall S (strat : strategy S) verdict tc0 file0,
+  exists w, loop_start strat verdict tc0 file0 = LS (s_start strat tc0) (it0 tc0) w.
+Proof. intros S strat verdict tc0 file0. eexists. reflexivity. Qed.
+
+Lemma reachable_step_inv : forall S (strat : strategy S) verdict (J : S -> tcase -> Prop)
+    tc0 file0 st it w,
+  step_inv strat J -> J (s_start strat tc0) tc0 ->
+  reachable strat verdict tc0 file0 st it w -> J st (it_best it).
+Proof.
+  intros S strat verdict J tc0 file0 st it w HJ H0 Hr. unfold reachable in Hr.
+  destruct (loop_start_state S strat verdict tc0 file0) as [w0' E]. rewrite E in Hr.
+  apply (lsteps_step_inv S strat verdict J HJ _ _ Hr). cbn [on_ls it0 it_best]. exact H0.
+Qed.
+
+(* ------------------------------------------------------------------ *)
+(* C04: deleting strategies only ever delete                          *)
+(* ------------------------------------------------------------------ *)
+
+Definition is_deletion (tc0 : tcase) (f : bytes) : Prop :=
+  exists t, sub_reducible tc0 t /\ f = content t.
+
+Lemma tad_app : forall tc0 l1 l2,
+  tests_are_deletions tc0 l1 -> tests_are_deletions tc0 l2 -> tests_are_deletions tc0 (l1 ++ l2).
+Proof. intros tc0 l1 l2 H1 H2. unfold tests_are_deletions. apply Forall_app. split; assumption. Qed.
+
+Lemma tad_wafter : forall tc0 w t a,
+  tests_are_deletions tc0 (chron w) -> sub_reducible tc0 t ->
+  tests_are_deletions tc0 (chron (wafter w t a)).
+Proof.
+  intros tc0 w t a Hw Ht. rewrite chron_wafter. apply tad_app; [exact Hw|].
+  constructor; [exact I|]. constructor.
+  - exists t. split; [exact Ht | reflexivity].
+  - destruct a; cbn [tcopy]; repeat constructor.
+Qed.
+
+Lemma tad_finally : forall tc0 w,
+  tests_are_deletions tc0 (chron w) -> tests_are_deletions tc0 (chron (finally w)).
+Proof.
+  intros tc0 w Hw. destruct (finally_cases w) as [[He _]|(t & _ & _ & He)]; rewrite He.
+  - rewrite chron_log. apply tad_app; [exact Hw|]. repeat constructor.
+  - rewrite chron_write_file, chron_log. apply tad_app; [apply tad_app; [exact Hw|]|];
+      repeat constructor.
+Qed.
+
+Lemma file_finally_deletion : forall tc0 w,
+  is_deletion tc0 (w_file w) ->
+  (forall t, w_last w = Some t -> sub_reducible tc0 t) ->
+  is_deletion tc0 (w_file (finally w)).
+Proof.
+  intros tc0 w Hf Hl. destruct (finally_cases w) as [[He _]|(t & Ht & _ & He)]; rewrite He.
+  - exact Hf.
+  - exists t. split; [apply Hl; exact Ht | reflexivity].
+Qed.
+
+Section Deleting.
+  Variables (S : Type) (strat : strategy S) (I : S -> tcase -> Prop) (verdict : verdict_t)
+            (tc0 : tcase).
+  Hypothesis Hdel : deleting strat I.
+
+  Definition KD (st : S) (it : iter) (w : world) : Prop :=
+    I st (it_best it) /\ sub_reducible tc0 (it_best it) /\
+    tests_are_deletions tc0 (chron w) /\ is_deletion tc0 (w_file w) /\
+    w_last w = Some (it_best it).
+
+  Lemma sub_reducible_wf : forall t t', sub_reducible t t' -> wf t'.
+  Proof. intros t t' (_ & _ & H & _). exact H. Qed.
+
+  Lemma KD_step : forall a b, lstep strat verdict a b -> on_ls KD a -> on_ls KD b.
+  Proof.
+    intros a b Hstep. destruct Hstep as
+      [st it w b0 st' Hn | st it w t k Hn Hm | st it w t k w' Hn Hm Hi | st it w t k w' Hn Hm Hi];
+      cbn [on_ls]; intros (HI & Hsub & Htad & Hfile & Hlast);
+      pose proof (Hdel _ _ HI (sub_reducible_wf _ _ Hsub)) as Hd; rewrite Hn in Hd.
+    - contradiction.
+    - destruct Hd as (_ & Hk & _). unfold KD. split; [exact Hk|]. split; [exact Hsub|].
+      split; [exact Htad|]. split; [exact Hfile | exact Hlast].
+    - destruct Hd as (Hst & _ & _ & Hk).
+      apply interesting_true_inv in Hi. destruct Hi as [_ Hw]. subst w'.
+      pose proof (sub_reducible_trans _ _ _ Hsub Hst) as Ht.
+      unfold KD. cbn [it_best]. split; [exact Hk|]. split; [exact Ht|].
+      split; [apply tad_wafter; assumption|]. split.
+      + rewrite wafter_file. exists t. split; [exact Ht | reflexivity].
+      + rewrite wafter_last. reflexivity.
+    - destruct Hd as (Hst & _ & Hk & _).
+      apply interesting_true_inv in Hi. destruct Hi as [_ Hw]. subst w'.
+      pose proof (sub_reducible_trans _ _ _ Hsub Hst) as Ht.
+      unfold KD. cbn [it_best]. split; [exact Hk|]. split; [exact Hsub|].
+      split; [apply tad_wafter; assumption|]. split.
+      + rewrite wafter_file. exists t. split; [exact Ht | reflexivity].
+      + rewrite wafter_last. exact Hlast.
+  Qed.
+End Deleting.
+
+Lemma deleting_runs_only_delete :
+  forall S (strat : strategy S) (I : S -> tcase -> Prop) verdict fuel tc0 file0,
+    wf tc0 -> content tc0 = file0 -> I (s_start strat tc0) tc0 -> deleting strat I ->
+    let w := result_world (run strat verdict fuel tc0 file0) in
+    tests_are_deletions tc0 (chron w) /\ exists t, sub_reducible tc0 t /\ w_file w = content t.
+Proof.
+  intros S strat I verdict fuel tc0 file0 Hwf Hc HI0 Hdel. cbv zeta.
+  pose proof (sub_reducible_refl tc0 Hwf) as Hrefl.
+  assert (Hfile0 : is_deletion tc0 file0).
+  { exists tc0. split; [exact Hrefl | symmetry; exact Hc]. }
+  fold (is_deletion tc0 (w_file (result_world (run strat verdict fuel tc0 file0)))).
+  destruct (run_cases S strat verdict fuel tc0 file0)
+    as [[_ Hr]|[(_ & _ & Hr)|[(_ & _ & Hr)|(_ & _ & Hr)]]]; rewrite Hr; cbn [result_world].
+  - split.
+    + apply tad_finally. repeat constructor.
+    + apply file_finally_deletion; [exact Hfile0|]. intros t Ht. discriminate Ht.
+  - split.
+    + apply tad_finally. cbv [chron w1 w0 log count_test temp_copy init_world w_trace rev app
+                              w_file w_temp w_tests w_tfc w_total w_last w_dirty].
+      repeat constructor. exact Hfile0.
+    + apply file_finally_deletion; [exact Hfile0|]. intros t Ht. discriminate Ht.
+  - split.
+    + apply tad_finally. cbv [chron wN w1 w0 log count_test temp_copy init_world w_trace rev app
+                              w_file w_temp w_tests w_tfc w_total w_last w_dirty].
+      repeat constructor. exact Hfile0.
+    + apply file_finally_deletion; [exact Hfile0|]. intros t Ht. discriminate Ht.
+  - assert (HK0 : KD S I tc0 (s_start strat tc0) (it0 tc0) (wY tc0 file0)).
+    { unfold KD. cbn [it0 it_best]. split; [exact HI0|]. split; [exact Hrefl|]. split; [|split].
+      - cbv [chron wY w1 w0 log count_test temp_copy set_last init_world w_trace rev app
+             w_file w_temp w_tests w_tfc w_total w_last w_dirty].
+        repeat constructor. exact Hfile0.
+      - exact Hfile0.
+      - reflexivity. }
+    destruct (loop_follows_lsteps S strat verdict fuel (s_start strat tc0) (it0 tc0)
+                (wY tc0 file0) _ eq_refl) as (st' & it' & w' & Hs & Hm).
+    pose proof (lsteps_on_ls S strat verdict (KD S I tc0)
+                  (KD_step S strat I verdict tc0 Hdel) _ _ Hs HK0) as HK.
+    cbn [on_ls] in HK. destruct HK as (HI & Hsub & Htad & Hfile & Hlast).
+    destruct (loop strat verdict fuel (s_start strat tc0) (it0 tc0) (wY tc0 file0))
+      as [rc wf1|[e|] wf1|wf1]; cbn [map_world result_world].
+    + destruct Hm as (_ & Hw & _). subst wf1. split.
+      * apply tad_finally. rewrite chron_write_file. apply tad_app; [exact Htad|].
+        repeat constructor.
+      * apply file_finally_deletion.
+        -- exists (it_best it'). split; [exact Hsub | reflexivity].
+        -- intros t Ht. cbn [write_file w_last] in Ht. rewrite Hlast in Ht.
+           inversion Ht. subst t. exact Hsub.
+    + destruct Hm as [_ Hw]. subst wf1. split; [apply tad_finally; exact Htad|].
+      apply file_finally_deletion; [exact Hfile|].
+      intros t Ht. rewrite Hlast in Ht. inversion Ht. subst t. exact Hsub.
+    + destruct Hm as (t & k & Hn & _ & Hi).
+      pose proof (Hdel _ _ HI (sub_reducible_wf _ _ Hsub)) as Hd. rewrite Hn in Hd.
+      destruct Hd as (Hst & _).
+      pose proof (sub_reducible_trans _ _ _ Hsub Hst) as Ht.
+      apply interesting_true_inv in Hi. destruct Hi as [_ Hw]. subst wf1. split.
+      * apply tad_finally. apply tad_wafter; assumption.
+      * apply file_finally_deletion.
+        -- rewrite wafter_file. exists t. split; [exact Ht | reflexivity].
+        -- intros t1 Ht1. rewrite wafter_last, Hlast in Ht1. inversion Ht1. subst t1. exact Hsub.
+    + subst wf1. split; [exact Htad | exact Hfile].
+Qed.
+
+(* ------------------------------------------------------------------ *)
+(* minimize: basic shapes                                             *)
+(* ------------------------------------------------------------------ *)
+
+Ltac msimpl :=
+  cbn [m_chunk_size m_min_chunk m_chunk_end m_removed m_deadline m_reads m_phase set_phase].
+Ltac msimpl_in H :=
+  cbn [m_chunk_size m_min_chunk m_chunk_end m_removed m_deadline m_reads m_phase set_phase] in H.
+
+Lemma lpo2st_nonneg : forall n, 0 <= largest_power_of_two_smaller_than n.
+Proof.
+  intros n. unfold largest_power_of_two_smaller_than. cbv zeta.
+  pose proof (top_bit_positive n) as Hp.
+  destruct ((py_shl 1 (Z.max (bit_length n - 1) 0) =? n) && (n >? 1)).
+  - rewrite py_shr_1. apply Z.div_pos; lia.
+  - lia.
+Qed.
+
+Lemma halve_nonneg : forall f cs len, 0 <= cs -> 0 <= halve f cs len.
+Proof.
+  induction f as [|f IH]; intros cs len Hcs; cbn [halve].
+  - exact Hcs.
+  - destruct (cs >? 1); [|exact Hcs].
+    assert (H2 : 0 <= py_shr cs 1) by (rewrite py_shr_1; apply Z.div_pos; lia).
+    destruct (py_shr cs 1 <? len); [exact H2 | apply IH; exact H2].
+Qed.
+
+(* what decide_state can return *)
+Lemma decide_state_shape : forall cfg s best s',
+  decide_state cfg s best = Some s' ->
+  m_min_chunk s' = m_min_chunk s /\ m_chunk_end s' = tc_len best /\ m_phase s' = PHead /\
+  (m_chunk_size s' = m_chunk_size s \/
+   (m_min_chunk s < m_chunk_size s /\
+    m_chunk_size s' = halve (halve_fuel (m_chunk_size s)) (m_chunk_size s) (tc_len best))).
+Proof.
+  intros cfg s best s' H. unfold decide_state in H. cbv zeta in H.
+  destruct (m_chunk_size s <=? m_min_chunk s) eqn:E1.
+  - destruct (m_removed s && repeats_last_or_always (c_repeat cfg)) eqn:E2; [|discriminate H].
+    inversion H. subst s'. msimpl. repeat split. left. reflexivity.
+  - destruct (m_removed s && is_always (c_repeat cfg) && (m_chunk_size s <? tc_len best)) eqn:E2;
+      inversion H; subst s'; msimpl; repeat split.
+    + left. reflexivity.
+    + right. split; [lia | reflexivity].
+Qed.
+
+(* the candidate of propose_chunk *)
+Lemma propose_chunk_shape : forall s best t k,
+  propose_chunk s best = Propose t k ->
+  rmslice best (Z.max 0 (m_chunk_end s - m_chunk_size s)) (m_chunk_end s) = Ok t /\
+  (forall o, m_chunk_size (k o) = m_chunk_size s /\ m_min_chunk (k o) = m_min_chunk s /\
+             m_phase (k o) = PHead) /\
+  m_chunk_end (k (Tested true)) = Z.max 0 (m_chunk_end s - m_chunk_size s) /\
+  (forall o, o <> Tested true -> m_chunk_end (k o) <= m_chunk_end s \/ m_chunk_size s <= 0).
+Proof.
+  intros s best t k H. unfold propose_chunk, block_of in H. cbv zeta in H. cbn [fst] in H.
+  rewrite copy_id in H.
+  destruct (rmslice best (Z.max 0 (m_chunk_end s - m_chunk_size s)) (m_chunk_end s))
+    as [t1|e] eqn:Er; [|discriminate H].
+  inversion H. subst t1. split; [reflexivity|]. split; [|split].
+  - intros o. destruct o as [|[|]]; msimpl; repeat split.
+  - reflexivity.
+  - intros o Ho. destruct o as [|[|]]; msimpl; try (exfalso; apply Ho; reflexivity);
+      destruct (m_chunk_size s <=? 2) eqn:E; lia.
+Qed.
+
+Lemma propose_chunk_cases : forall s best,
+  (exists e, propose_chunk s best = Fail e) \/ (exists t k, propose_chunk s best = Propose t k).
+Proof.
+  intros s best. unfold propose_chunk. cbv zeta.
+  destruct (rmslice (copy best) (fst (block_of s)) (m_chunk_end s)) as [t|e].
+  - right. eexists. eexists. reflexivity.
+  - left. exists e. reflexivity.
+Qed.
+
+(* mnext from the head of the loop with no post-round callback *)
+Definition tick (s : mstate) : mstate :=
+  {| m_chunk_size := m_chunk_size s; m_min_chunk := m_min_chunk s;
+     m_chunk_end := m_chunk_end s; m_removed := m_removed s;
+     m_deadline := m_deadline s;
+     m_reads := match m_deadline s with Some _ => S (m_reads s) | None => m_reads s end;
+     m_phase := PHead |}.
+
+Lemma mnext_head_cases : forall cfg clk st best,
+  m_phase st = PHead ->
+  mnext cfg clk no_post st best = Done \/
+  (m_chunk_end st - m_chunk_size st < 0 /\ tc_len best <> 0 /\
+   exists s', decide_state cfg (tick st) best = Some s' /\
+              mnext cfg clk no_post st best = propose_chunk s' best) \/
+  (0 <= m_chunk_end st - m_chunk_size st /\
+   mnext cfg clk no_post st best = propose_chunk (tick st) best).
+Proof.
+  intros cfg clk st best Hph. unfold mnext. rewrite Hph. cbv zeta. fold (tick st).
+  destruct (match m_deadline st with Some d => clk (m_reads st) >? d | None => false end);
+    [left; reflexivity|].
+  change (m_chunk_end (tick st)) with (m_chunk_end st).
+  change (m_chunk_size (tick st)) with (m_chunk_size st).
+  destruct (m_chunk_end st - m_chunk_size st <? 0) eqn:E1.
+  - destruct (tc_len best =? 0) eqn:E2; [left; reflexivity|].
+    unfold no_post, decide.
+    destruct (decide_state cfg (tick st) best) as [s'|] eqn:Ed; [|left; reflexivity].
+    right. left. split; [lia|]. split; [lia|]. exists s'. split; reflexivity.
+  - right. right. split; [lia | reflexivity].
+Qed.
+
+(* ------------------------------------------------------------------ *)
+(* C04: minimize is a deleting strategy                               *)
+(* ------------------------------------------------------------------ *)
+
+Definition ID (st : mstate) (best : tcase) : Prop :=
+  0 <= m_chunk_size st /\ m_phase st = PHead.
+
+Lemma propose_chunk_deleting : forall s best,
+  0 <= m_chunk_size s -> wf best ->
+  match propose_chunk s best with
+  | Propose t k => sub_reducible best t /\
+                   ID (k Skipped) best /\ ID (k (Tested false)) best /\ ID (k (Tested true)) t
+  | RawWrite _ _ => False
+  | Done => True
+  | Fail _ => True
+  end.
+Proof.
+  intros s best Hcs Hwf.
+  destruct (propose_chunk_cases s best) as [[e He]|(t & k & Hp)].
+  - rewrite He. exact I.
+  - rewrite Hp. destruct (propose_chunk_shape s best t k Hp) as (Hr & Hk & _).
+    split.
+    + apply (rmslice_sub_reducible best _ _ t Hwf Hr).
+      pose proof (tc_len_nonneg best Hwf) as Hlen. unfold py_clamp.
+      destruct (Z.max 0 (m_chunk_end s - m_chunk_size s) <? 0) eqn:E1;
+        destruct (m_chunk_end s <? 0) eqn:E2; lia.
+    + unfold ID. destruct (Hk Skipped) as (H1 & _ & H1').
+      destruct (Hk (Tested false)) as (H2 & _ & H2').
+      destruct (Hk (Tested true)) as (H3 & _ & H3').
+      rewrite H1, H2, H3. repeat split; assumption.
+Qed.
+
+Lemma minimize_deleting_ID : forall cfg clk, deleting (minimize cfg clk no_post) ID.
+Proof.
+  intros cfg clk st best [Hcs Hph] Hwf. cbn [minimize s_next].
+  destruct (mnext_head_cases cfg clk st best Hph)
+    as [Hm|[(_ & _ & s' & Hds & Hm)|(_ & Hm)]]; rewrite Hm.
+  - exact I.
+  - apply propose_chunk_deleting; [|exact Hwf].
+    destruct (decide_state_shape cfg (tick st) best s' Hds) as (_ & _ & _ & [Hc|[_ Hc]]);
+      rewrite Hc; cbn [tick m_chunk_size]; [exact Hcs | apply halve_nonneg; exact Hcs].
+  - apply propose_chunk_deleting; [exact Hcs | exact Hwf].
+Qed.
+
+Lemma minimize_is_deleting :
+  forall cfg clk tc0, 1 <= c_max cfg ->
+    exists I, I (mstart cfg clk tc0) tc0 /\ deleting (minimize cfg clk no_post) I.
+Proof.
+  intros cfg clk tc0 Hmax. exists ID. split; [|apply minimize_deleting_ID].
+  split; [|reflexivity]. cbn [mstart m_chunk_size].
+  pose proof (lpo2st_nonneg (tc_len tc0)). lia.
+Qed.
+
+Lemma minimize_only_deletes :
+  forall cfg clk verdict fuel tc0 file0,
+    wf tc0 -> content tc0 = file0 -> 1 <= c_max cfg ->
+    let w := result_world (run (minimize cfg clk no_post) verdict fuel tc0 file0) in
+    tests_are_deletions tc0 (chron w) /\ exists t, sub_reducible tc0 t /\ w_file w = content t.
+Proof.
+  intros cfg clk verdict fuel tc0 file0 Hwf Hc Hmax.
+  destruct (minimize_is_deleting cfg clk tc0 Hmax) as (I & HI0 & Hdel).
+  apply (deleting_runs_only_delete mstate (minimize cfg clk no_post) I verdict fuel tc0 file0
+           Hwf Hc HI0 Hdel).
+Qed.
+
+(* ------------------------------------------------------------------ *)
+(* C14: round-end decision, options, deadline                         *)
+(* ------------------------------------------------------------------ *)
+
+Lemma decide_repeat :
+  forall cfg s best s',
+    1 <= m_min_chunk s -> pow2 (m_chunk_size s) ->
+    decide_state cfg s best = Some s' ->
+    m_chunk_size s' <= m_chunk_size s /\ pow2 (m_chunk_size s') /\
+    (m_chunk_size s' = m_chunk_size s ->
+       m_removed s = true /\
+       match c_repeat cfg with
+       | Never => False
+       | Last => m_chunk_size s <= m_min_chunk s
+       | Always => True
+       end).
+Proof.
+  intros cfg s best s' Hmin Hp H. unfold decide_state in H. cbv zeta in H.
+  destruct (m_chunk_size s <=? m_min_chunk s) eqn:E1.
+  - destruct (m_removed s && repeats_last_or_always (c_repeat cfg)) eqn:E2; [|discriminate H].
+    inversion H. subst s'. msimpl. split; [lia|]. split; [exact Hp|]. intros _.
+    apply andb_true_iff in E2. destruct E2 as [Er Em]. split; [exact Er|].
+    destruct (c_repeat cfg); cbn [repeats_last_or_always] in Em;
+      [exact I | lia | discriminate Em].
+  - destruct (m_removed s && is_always (c_repeat cfg) && (m_chunk_size s <? tc_len best)) eqn:E2;
+      inversion H; subst s'; msimpl.
+    + split; [lia|]. split; [exact Hp|]. intros _.
+      apply andb_true_iff in E2. destruct E2 as [E2 _].
+      apply andb_true_iff in E2. destruct E2 as [Er Em]. split; [exact Er|].
+      destruct (c_repeat cfg); cbn [is_always] in Em; [exact I | discriminate Em | discriminate Em].
+    + unfold halve_fuel.
+      destruct (halve_pow2_le (S (Z.to_nat (Z.log2 (m_chunk_size s)))) (m_chunk_size s)
+                              (tc_len best) Hp) as [Hp' Hle].
+      pose proof (halve_lt (Z.to_nat (Z.log2 (m_chunk_size s))) (m_chunk_size s) (tc_len best)
+                           Hp ltac:(lia)) as Hlt.
+      split; [exact Hle|]. split; [exact Hp'|]. intros Heq. Show. lia.
+Qed.
+
+Lemma decide_never_stops :
+  forall cfg s best, c_repeat cfg = Never -> m_chunk_size s <= m_min_chunk s ->
+    decide_state cfg s best = None.
+Proof.
+  intros cfg s best Hr Hle. unfold decide_state. cbv zeta.
+  destruct (m_chunk_size s <=? m_min_chunk s) eqn:E1; [|lia].
+  rewrite Hr. cbn [repeats_last_or_always]. rewrite andb_false_r. reflexivity.
+Qed.
+
+Lemma mstart_min_eq_max :
+  forall cfg clk tc0, c_min cfg = c_max cfg -> 1 <= c_max cfg ->
+    m_chunk_size (mstart cfg clk tc0) = m_min_chunk (mstart cfg clk tc0).
+Proof.
+  intros cfg clk tc0 He Hmax. cbn [mstart m_chunk_size m_min_chunk]. rewrite He. lia.
+Qed.
+
+Lemma mnext_deadline :
+  forall cfg clk post s best d,
+    m_phase s = PHead -> m_deadline s = Some d -> clk (m_reads s) > d ->
+    mnext cfg clk post s best = Done.
+Proof.
+  intros cfg clk post s best d Hph Hd Hgt. unfold mnext. rewrite Hph, Hd.
+  destruct (clk (m_reads s) >? d) eqn:E; [reflexivity | lia].
+Qed.
+
+Lemma mstart_deadline :
+  forall cfg clk tc0 l, c_limit cfg = Some l ->
+    m_deadline (mstart cfg clk tc0) = Some (clk O + l) /\ m_phase (mstart cfg clk tc0) = PHead.
+Proof.
+  intros cfg clk tc0 l Hl. cbn [mstart m_deadline m_phase]. rewrite Hl. split; reflexivity.
+Qed.
+
+Lemma step_inv_ID : forall cfg clk,
+  step_inv (minimize cfg clk no_post) (fun st _ => m_phase st = PHead).
+Proof.
+  intros cfg clk st best Hph. cbn [minimize s_next].
+  destruct (mnext_head_cases cfg clk st best Hph)
+    as [Hm|[(_ & _ & s' & _ & Hm)|(_ & Hm)]]; rewrite Hm; [exact I| |].
+  - destruct (propose_chunk_cases s' best) as [[e He]|(t & k & Hp)];
+      [rewrite He; exact I|]. rewrite Hp.
+    destruct (propose_chunk_shape s' best t k Hp) as (_ & Hk & _).
+    repeat split; apply Hk.
+  - destruct (propose_chunk_cases (tick st) best) as [[e He]|(t & k & Hp)];
+      [rewrite He; exact I|]. rewrite Hp.
+    destruct (propose_chunk_shape (tick st) best t k Hp) as (_ & Hk & _).
+    repeat split; apply Hk.
+Qed.
+
+Lemma minimize_phase_head :
+  forall cfg clk verdict tc0 file0 st it w,
+    reachable (minimize cfg clk no_post) verdict tc0 file0 st it w -> m_phase st = PHead.
+Proof.
+  intros cfg clk verdict tc0 file0 st it w Hr.
+  apply (reachable_step_inv mstate (minimize cfg clk no_post) verdict
+           (fun st _ => m_phase st = PHead) tc0 file0 st it w (step_inv_ID cfg clk)
+           eq_refl Hr).
+Qed.
